@@ -9,11 +9,13 @@ import random
 MS = 1000
 S = 1000000
 
-HS = [200 * MS, 500 * MS, 1 * S, 2 * S]
+HS = [200 * MS, 500 * MS, 1 * S, 2 * S, 4 * S]
 RATIOS = [3.0, 3.5, 5.0, 10.0]
 
 PAYLOAD_CLASSES = ["empty", "notjson", "null", "array", "number", "string", "wrongtypes", "idnum", "toknum",
-                   "missingid", "missingtoken", "emptyobj", "huge", "prionegative", "priohuge", "truncated", "other"]
+                   "missingid", "missingtoken", "emptyobj", "huge", "prionegative", "priohuge", "truncated", "other",
+                   "shorttok", "tok1", "tok7", "emptytok", "emptyid", "longtok", "unicode", "nested", "dupkeys", "priofloat",
+                   "asshort:A", "asshort:B"]
 STOP_VARIANTS = [
     {"do": "stop"},
     {"do": "stopctx"},
@@ -32,7 +34,7 @@ def inst(i, **kw):
 
 def scn(name, seed, H, ratio, insts, steps, family, end, calm=True, rules=None, lat=None, watch=None, **kw):
     ttl = int(H * ratio)
-    latmax = lat if lat is not None else int(H * 0.2) - 1
+    latmax = lat if lat is not None else int(H * 0.24) - 1      # per phase: an operation takes at most 0.48 H < H/2
     s = {"name": name, "seed": seed, "h_us": H, "ttl_us": ttl, "insts": insts,
          "lat_min_us": min(500, latmax), "lat_max_us": latmax,
          "watch_min_us": 500, "watch_max_us": watch if watch is not None else int(H * 0.3),
@@ -121,9 +123,9 @@ def fam_stop(tier, seed):
     combos = []
     for role, m in stop_points():
         for v in range(len(STOP_VARIANTS)):
-            for after in ("none", "restart", "stop2", "late_release"):
+            for after in ("none", "restart", "stop2", "late_release", "restart_held"):
                 combos.append((role, m, v, after))
-    chosen = sample(rng, combos, 90 if tier == "quick" else len(combos))
+    chosen = sample(rng, combos, 110 if tier == "quick" else len(combos))
     out = []
     for k, (role, m, v, after) in enumerate(chosen):
         H = rng.choice([500 * MS, 1 * S])
@@ -138,6 +140,8 @@ def fam_stop(tier, seed):
         then = []
         if after == "late_release":
             then.append({"do": "sleep", "us": 6 * S + 500 * MS})
+        elif after == "restart_held":   # the stop gives up waiting, the same object is started again, only then the operation returns
+            then += [{"do": "sleep", "us": 6 * S + 500 * MS}, {"do": "start", "i": role.rstrip("p")}, {"do": "sleep", "us": 1 * S}]
         elif after == "restart":
             then.append({"do": "sleep", "us": 10 * MS})
         st["then"] = then
@@ -146,6 +150,9 @@ def fam_stop(tier, seed):
         if role == "B" and m["kind"] == "create" and m["nth"] >= 5:
             steps.append({"at": int(2.2 * H), "do": "stopctx", "i": "A", "del": True})
         end = 9 * S + 8 * H
+        if after == "restart_held" and role == "B":
+            steps.append({"at": 8 * S + 6 * H, "do": "stopctx", "i": "A", "del": True})
+            end += 6 * H
         if after == "restart":
             steps.append({"at": 7 * S + 3 * H, "do": "start", "i": role})
             if role == "B":   # later the leader leaves: the restarted follower must take over
@@ -311,8 +318,11 @@ def fam_prio(tier, seed):
             victim = rng.choice(ids)
             steps.append({"at": t + 4 * H, "do": rng.choice(["stop", "stopctx"]), "i": victim, "del": True})
         lat = int(H * 0.05) - 1 if fast else int(H * 0.2) - 1
+        rules = []
+        if rng.random() < 0.3:   # one instance receives no watch notifications at all (only its periodic check informs it)
+            rules.append({"match": {"i": rng.choice(ids), "kind": "deliver"}, "fault": "drop", "from_nth": 1, "count": 0})
         out.append(scn("prio-%d-%d" % (seed, k), seed * 1000 + k, H, ratio, insts, steps, "prio", end, lat=lat,
-                       watch=int(H * (0.05 if fast else 0.3))))
+                       watch=int(H * (0.05 if fast else 0.3)), rules=rules))
     return out
 
 
@@ -409,6 +419,20 @@ def fam_conn(tier, seed):
                           "fault": rng.choice(["fail:timeout", "fail:notfound", "hang", "timeout"]), "from_nth": 1, "count": rng.randrange(1, 3)})
         out.append(scn("conn-%s-%d" % (gmode, k), seed * 1000 + k, H, ratio, insts, steps, "conn", end, rules=rules,
                        part_timeout_us=2 * S))
+    # a reconnect verification whose read is in flight while the connection flaps again and the record changes owner
+    for k in range(10 if tier == "quick" else 80):
+        H = rng.choice([500 * MS, 1 * S])
+        t0 = int((1.3 + rng.random()) * H)
+        src = rng.choice(["verify", "validate"])
+        then = []
+        for ev in rng.sample([{"do": "disc", "i": "A"}, {"do": "out_put", "cls": rng.choice(["as:B", "other", "asshort:A"])}, {"do": "reconn", "i": "A"}],
+                             rng.choice([2, 3, 3])):
+            then += [{"do": "sleep", "us": rng.choice([1 * MS, 20 * MS, 150 * MS])}, ev]
+        then.append({"do": "sleep", "us": rng.choice([50 * MS, 400 * MS, 1500 * MS])})
+        insts = [inst("A", conn=True, grace_us=rng.choice([0, 2 * H]), vi_us=rng.choice([0, H]))]
+        steps = [{"at": 0, "do": "start", "i": "A"}, {"at": t0, "do": "disc", "i": "A"}, {"at": t0 + rng.choice([10 * MS, 300 * MS]), "do": "reconn", "i": "A"},
+                 {"when": {"i": "A", "kind": "get", "src": src, "nth": 1 if src == "verify" else 0, "phase": rng.choice(["pre", "post"])}, "do": "noop", "then": then}]
+        out.append(scn("conn-verify-held-%d" % k, seed * 1000 + 800 + k, H, rng.choice([3.0, 5.0]), insts, steps, "conn", t0 + 10 * H + 8 * S, lat=int(H * 0.05)))
     # a stop call overlapping the expiry of the grace timer: Stop's critical section is held open by a gated metrics
     # callback and released at the very instant the timer fires (lock order e.mu/d.mu)
     for k in range(6 if tier == "quick" else 40):
@@ -434,7 +458,7 @@ def fam_validate(tier, seed):
         for vod in (False, True):
             for ctx in (0, -1, 300 * MS):
                 combos.append((cls, vod, ctx))
-    chosen = sample(rng, combos, 90 if tier == "quick" else len(combos))
+    chosen = sample(rng, combos, 110 if tier == "quick" else len(combos))
     if tier != "quick":
         chosen = chosen * 2
     for k, (cls, vod, ctx) in enumerate(chosen):
@@ -547,6 +571,11 @@ def fam_regress(tier, seed):
             {"at": 0, "do": "start", "i": "A"},
             {"when": {"i": "A", "kind": "update", "src": "hb", "nth": 2, "phase": "post"}, "do": "noop",
              "then": [{"do": "sleep", "us": 1 * S + 3 * H + 3 * H + 1500 * MS}]}], "regress", 14 * H + 6 * S, lat=20 * MS, watch=30 * MS))
+        # 9. a preempted leader that receives no watch notification afterwards learns the new leader from its periodic check
+        out.append(scn("reg-preempted-leader-without-notifications-%d" % k, seed * 1000 + k, H, ratio,
+                       [inst("A", prio=1), inst("B", prio=2, takeover=True)], [
+            {"at": 0, "do": "start", "i": "A"}, {"at": int(2.5 * H), "do": "start", "i": "B"}], "regress", 12 * H + 4 * S, lat=20 * MS, watch=30 * MS,
+            rules=[{"match": {"i": "A", "kind": "deliver"}, "fault": "drop", "from_nth": 1, "count": 0}]))
         # 2. restart with a round of the previous run still in flight
         out.append(scn("reg-restart-stale-round-%d" % k, seed * 1000 + k, H, ratio, [inst("A"), inst("B")], [
             {"at": 0, "do": "start", "i": "B"}, {"at": H // 10, "do": "start", "i": "A"},
@@ -577,6 +606,22 @@ def fam_regress(tier, seed):
                 {"at": 0, "do": "start", "i": "A"}, {"at": H // 10, "do": "start", "i": "B"},
                 {"at": int(2.3 * H), "do": "out_put", "cls": cls},
                 {"at": int(2.3 * H) + rng.choice([1, 50, 200]) * MS, "do": "stopctx", "i": "A", "del": True}], "regress", 8 * H + 2 * S, lat=20 * MS, watch=30 * MS))
+        # 10. the leader's record rewritten by an outside party under the leader's own id (foreign token, newer revision)
+        for cls in ("as:A", "asshort:A"):
+            with_b = rng.random() < 0.5
+            out.append(scn("reg-own-id-foreign-write-%s-%d" % (cls.replace(":", "_"), k), seed * 1000 + k, H, ratio,
+                           [inst("A"), inst("B")] if with_b else [inst("A")],
+                           [{"at": 0, "do": "start", "i": "A"}] + ([{"at": H // 10, "do": "start", "i": "B"}] if with_b else []) +
+                           [{"at": int((2.1 + rng.random() * 0.8) * H), "do": "out_put", "cls": cls}], "regress", 9 * H + 2 * S, lat=20 * MS, watch=30 * MS))
+        # 11. one background validation has failed, the next one is in flight, and the term ends by another cause in that window
+        for cause in ("stop", "stopctx", "stopctxdel", "hb"):
+            ev = {"stop": {"do": "stop", "i": "A"}, "stopctx": {"do": "stopctx", "i": "A"}, "stopctxdel": {"do": "stopctx", "i": "A", "del": True},
+                  "hb": {"do": "out_put", "cls": "as:B"}}[cause]
+            out.append(scn("reg-term-ends-during-second-validation-%s-%d" % (cause, k), seed * 1000 + k, H, 5.0, [inst("A", vi_us=H + H // 2)], [
+                {"at": 0, "do": "start", "i": "A"},
+                dict(ev, when={"i": "A", "kind": "get", "src": "validate", "nth": 2, "phase": "pre"},
+                     then=[{"do": "sleep", "us": H + H // 4 if cause == "hb" else 300 * MS}])], "regress", 10 * H + 3 * S, lat=20 * MS, watch=30 * MS,
+                rules=[{"match": {"i": "A", "kind": "get", "src": "validate"}, "fault": "fail:other", "from_nth": 1, "count": 1}]))
     return out
 
 
